@@ -159,7 +159,29 @@ def writer_grammar(P, fname, record_tags, exhaustive_switch=None):
             _enum_paths(f, c.block, c.idx + 1, dead, calls, start_ids, seqs, mode='w')
         gram[tag] = {(('c', tag, None),) + s for s in seqs}
     # header strings
-    hdr = sorted({f.expr(c.ops[0]) for c in f.calls('swrite') if f.const_of(c.ops[1]) == 12})
+    def _alts(o, depth=0):
+        """the constant strings an operand can be: both arms of a ?: (select / phi), the values stored in a local"""
+        o2 = f.strip(o)
+        i = f.insts.get(o2[1]) if o2[0] == 'i' else None
+        if i is not None and depth < 4:
+            if i.op == 'select':
+                return _alts(i.ops[1], depth + 1) | _alts(i.ops[2], depth + 1)
+            if i.op == 'phi':
+                r = set()
+                for v in i.ops:
+                    r |= _alts(v, depth + 1)
+                return r
+            if i.op == 'load':
+                a = f.strip(i.ops[0])
+                if a[0] == 'i' and f.insts[a[1]].op == 'alloca':
+                    r = set()
+                    for u in f.users.get(a[1], ()):
+                        if u.op == 'store' and f.strip(u.ops[1]) == a:
+                            r |= _alts(u.ops[0], depth + 1)
+                    if r:
+                        return r
+        return {f.expr(o)}
+    hdr = sorted({h for c in f.calls('swrite') if f.const_of(c.ops[1]) == 12 for h in _alts(c.ops[0])})
     _PRUNED_DEFAULT = set()
     return gram, hdr, f, pruned
 
